@@ -60,6 +60,8 @@ func checkC03(c c03Case, o *Obs) error {
 	}
 	o.LabelIf(c.HardGaps, "hard-gaps")
 	o.LabelIf(len(c.Recs) > 1, "records>1")
+	o.LabelIf(len(c.Recs) > 50, "records>50")
+	o.LabelIf(len(c.Ref.Seq) > 4096, "width>4096")
 	o.LabelIf(c.AlnLay.Width > 0, "wrapped")
 	o.LabelIf(c.AlnLay.CRLF, "crlf")
 
@@ -102,13 +104,20 @@ func genC03(t *rapid.T) c03Case {
 		maxW = 300
 	}
 	w := rapid.IntRange(1, maxW).Draw(t, "width")
+	sc := sizeClass(t, "c03")
+	if sc == 2 {
+		w = rapid.SampledFrom([]int{4095, 4096, 4097, 5000, 8193, 9000}).Draw(t, "longWidth")
+	}
 	c := c03Case{HardGaps: rapid.Bool().Draw(t, "hardGaps")}
 	refSeq := genAlnSeq(t, w, "refSym")
 	c.Ref = FaRec{ID: "ref", Desc: genDesc(t, "refDesc"), Seq: randomCase(t, refSeq, "refCase")}
 	n := rapid.IntRange(1, 8).Draw(t, "nrec")
+	if sc == 1 {
+		n = rapid.IntRange(60, 140).Draw(t, "nrecMany")
+	}
 	for i := 0; i < n; i++ {
 		var seq string
-		if rapid.IntRange(0, 2).Draw(t, "derive") > 0 {
+		if sc != 0 || rapid.IntRange(0, 2).Draw(t, "derive") > 0 {
 			// derived from the reference with a few changes: realistic, few SNPs
 			b := []byte(strings.ToUpper(refSeq))
 			k := rapid.IntRange(0, 4).Draw(t, "nchanges")
